@@ -1,6 +1,7 @@
 """C10 — SBML export is valid and import(export(model)) is the same model."""
 from contracts import c10_c11_io as C
 from contracts import c10_sbml_logic as S
+from contracts import c10_ann_order as O
 from props._generic import run_property, replay_with_driver
 
 LEVEL = "other"
@@ -9,9 +10,9 @@ KEYS = ["_create_bound"]
 
 def run(rep):
     more = [(S.PA_KEYS, S.PA_HOOKS), (["_check_required"], S.CR_HOOKS), (["_check"], S.CK_HOOKS), (S.CP_KEYS, S.CP_HOOKS),
-            (S.M2S_KEYS, S.M2S_HOOKS), (S.AN_KEYS, S.ANN_HOOKS)]
+            (S.M2S_KEYS, S.M2S_HOOKS), (S.AN_KEYS, S.ANN_HOOKS), (O.KEYS, O.HOOKS)]
     run_property(rep, KEYS, hooks=C.HOOKS, more=more, explanation=(
-        "Deductive part is thin and stated as such: only sbml._create_bound is within reach - it is proved, for every bound value and "
+        "Deductive part (thin next to what libsbml hides, and stated as such). sbml._create_bound is proved, for every bound value and "
         "every Configuration, to return the id of a parameter whose value equals the reaction's bound (the five shared ids for the "
         "configured defaults, 0 and +-inf; otherwise a per-reaction parameter created with exactly that value), relative to the "
         "assumption that _model_to_sbml created the five shared parameters with those values. Everything else of C10 is behind libsbml "
@@ -29,7 +30,11 @@ def run(rep):
         "reactions and groups - that _model_to_sbml creates the five shared parameters with config.lower_bound / config.upper_bound / 0 / "
         "-inf / +inf under exactly the ids _create_bound hands out; _parse_annotation_info (regular expression assumed) and the "
         "collection logic of _parse_annotations by two loop invariants: every matched resource is held under its provider (nothing "
-        "dropped, also no substring of an earlier identifier), lists have no duplicates, nothing is invented."),
+        "dropped, also no substring of an earlier identifier), lists have no duplicates, nothing is invented; and (key "
+        "_parse_annotations@order, with a ghost log of the uris read that is proved to be the flattened list of resources) every "
+        "identifier is stored at the FIRST occurrence of its (provider, identifier) pair and a list is sorted by first occurrence. "
+        "NOT proved, because false (findings): that a provider with one identifier always holds a single string (the same identifier "
+        "met twice gives a list of one), the metaId text of _check_required's message, freshness of the bound parameter ids."),
         trusted=["libsbml", "_create_parameter creates a constant parameter with the given value (assumed contract)",
                  "string concatenation treated as an uninterpreted injective-agnostic function",
                  "python ast nodes as immutable values (constructors assumed; the frame argument that later constructions do not change "
